@@ -13,7 +13,10 @@ from traffic_weaver import Weaver
 
 PROPERTY = "C16"
 LEVEL = "exploration"
-RULE = ("Hypothesis builds series of 5..80 samples (eight spacing kinds incl. integer dtype, non-uniform gaps with "
+RULE = ("Hypothesis builds series of 5..80 samples and, with ~6-10 % of the mass in condition / identity_s0 / default_s / "
+        "history, long series of 1000, 1023..1025, 2047..2049, 2400, 4095..4097 or 5000 samples (thorough also "
+        "8191..8193, 10000) described by a formula (sine + hash noise of prescribed energy E0, expanded in the body) "
+        "whose smoothing conditions are drawn within 0.7..1.3 of E0 so that FITPACK stays cheap; short series: (eight spacing kinds incl. integer dtype, non-uniform gaps with "
         "max/min ratio <= 1e2, 1e6 offset; values: integers, dyadics, smooth + noise over seven decades of scale, "
         "ties, constant, sign-changing, 1e6 offset, pure sine, affine, and 'bigoffset' = +-1e8..1e10 + O(1) sine + "
         "noise, |mean|/std >= 1e7; ndarray / list / int64 containers) and a "
@@ -21,7 +24,9 @@ RULE = ("Hypothesis builds series of 5..80 samples (eight spacing kinds incl. in
         "Weaver.smooth(s), process.spline_smooth(x, y, s) and Weaver.to_function() (optionally after a shift/scale "
         "so that the working series differs from the original) are run on them; the history sub-check applies 3..8 "
         "steps (shift_y, scale_y with |c| > 1 / < 1 / negative, smooth, trend, seeded noise, shift_x, scale_x, "
-        "restore_original) to ONE Weaver, judges every smooth(s) step against the series just before it, and takes "
+        "restore_original, append_one_sample(make_periodic True/False), repeat, truncate_by_index / _by_value "
+        "keeping >= 5 samples, normalize_x / _y) to ONE Weaver, judges every smooth(s) step against the series just "
+        "before it, and takes "
         "to_function() (default s / explicit 0) before and after several of them. Non-trivial: for the smoothing "
         "condition 0 < s < residual of the least-squares cubic polynomial (the constraint is active); for "
         "to_function / s = 0 a non-affine series; for affine data a non-zero slope and s != 0; for the default s a "
@@ -39,8 +44,11 @@ ASSUMPTIONS = ["x strictly increasing with max/min gap ratio <= 1e2, >= 5 sample
                "the centred values (same tolerance, measured 430 eps*max|y|): len(y)*var(y) is the residual of the "
                "best constant, hence at least that of the best cubic, "
                "and for such s the degree-3 smoothing spline is by definition that polynomial (FITPACK ier=-2)",
-               "history: x-changing steps are only generated when they keep x strictly increasing in float "
-               "arithmetic; a violation seen once for a case is reported again if Hypothesis re-executes the same "
+               "history: steps are applied only when their documented preconditions hold for the current series "
+               "(otherwise skipped and counted: >= 5 samples remain, abscissae stay distinct in float arithmetic, "
+               "normalize_y on non-constant values, repeat up to 400 samples); on long series only steps whose effect "
+               "on the noise energy the harness can follow, and smooth steps with s = rho*energy, rho in 0.7..1.3 or "
+               "0; a violation seen once for a case is reported again if Hypothesis re-executes the same "
                "case in the same process (identity-keyed caching faults depend on memory addresses)"]
 TECHNIQUE = ("Hypothesis-generated series x smoothing conditions; the smoothing condition, the identities and the "
              "default-s clause are evaluated on the outputs (math.fsum residuals, closed-form affine map, NumPy "
@@ -858,18 +866,18 @@ def _history(ctx, case):
 
 
 SUBCHECKS = [
-    Sub("to_function", "hyp", expanding(to_function_body), strategy=to_function_case, quick=400, thorough=8000,
+    Sub("to_function", "hyp", expanding(to_function_body), strategy=to_function_case, quick=250, thorough=6000,
         clause="to_function() with its default s passes through every sample and agrees with get()"),
-    Sub("condition", "hyp", expanding(condition_body), strategy=condition_case, quick=400, thorough=8000,
+    Sub("condition", "hyp", expanding(condition_body), strategy=condition_case, quick=350, thorough=6000,
         clause="smooth(s) keeps x and the length; sum of squared deviations <= s (0.1 % solver tolerance); the "
                "Weaver and the process function agree"),
-    Sub("identity_s0", "hyp", expanding(identity_body), strategy=identity_case, quick=400, thorough=8000,
+    Sub("identity_s0", "hyp", expanding(identity_body), strategy=identity_case, quick=300, thorough=6000,
         clause="s = 0 is the identity"),
-    Sub("affine", "hyp", expanding(affine_body), strategy=affine_case, quick=400, thorough=8000,
+    Sub("affine", "hyp", expanding(affine_body), strategy=affine_case, quick=250, thorough=6000,
         clause="affine data are returned unchanged for every s (also omitted)"),
-    Sub("default_s", "hyp", expanding(default_body), strategy=default_case, quick=400, thorough=8000,
+    Sub("default_s", "hyp", expanding(default_body), strategy=default_case, quick=300, thorough=6000,
         clause="s omitted means s = len(y)*var(y)"),
-    Sub("history", "hyp", expanding(history_body), strategy=history_case, quick=400, thorough=8000,
+    Sub("history", "hyp", expanding(history_body), strategy=history_case, quick=350, thorough=6000,
         clause="during a history of 3..8 steps on ONE Weaver: to_function() passes through the current get() samples "
                "every time and equals the spline of a fresh Weaver on the same samples; every smooth(s) step keeps x, "
                "obeys the smoothing condition w.r.t. the series just before it, is the identity for s = 0 and equals "
